@@ -189,11 +189,13 @@ func runC19(seed int64, n int, dir string, tier string) *Report {
 		if h < 2*len(idFamilies) && h%2 == 0 {
 			initState = []int{0, 3}[(h/2)%2] // the histories that walk through the identifier families run on a usable store
 		}
-		sdir := filepath.Join(base, "store")
+		// the configured directory is given by its user: any name a file system accepts
+		storeName := gen.Pick(g, []string{"store", "store", "sboms [prod]", "[archive]", "back\\slash", "star*", "q?mark", "sp ace", "tr{a,b}"})
+		sdir := filepath.Join(base, storeName)
 		switch initState {
 		case 1:
 			_ = os.WriteFile(filepath.Join(base, "blocker"), []byte("x"), 0o644)
-			sdir = filepath.Join(base, "blocker", "store")
+			sdir = filepath.Join(base, "blocker", storeName)
 		case 2:
 			_ = os.WriteFile(sdir, []byte("x"), 0o644)
 		case 3:
@@ -265,6 +267,9 @@ func runC19(seed int64, n int, dir string, tier string) *Report {
 				rep.Count("op=store:" + co.Outcome)
 				rep.c19Abnormal(co, desc)
 				rep.OracleEvals++
+				if prev, had := expect[d.id]; had && nc && co.Outcome == "ok" {
+					rep.Fail(Failure{What: "with no-clobber set, a store over an existing entry reported success (the entry was replaced)", Detail: fmt.Sprintf("entry held document %d, stored document %d, store directory %q", prev, d.tok, filepath.Base(sdir)), Input: map[string]any{"history": desc}})
+				}
 				if co.Outcome == "ok" {
 					okStores++
 					expect[d.id] = d.tok
@@ -376,7 +381,7 @@ func runC19(seed int64, n int, dir string, tier string) *Report {
 			}
 			rel, _ := filepath.Rel(base, p)
 			switch {
-			case strings.HasPrefix(rel, "doc") && strings.HasSuffix(rel, ".pb"), rel == "blocker", rel == "store":
+			case strings.HasPrefix(rel, "doc") && strings.HasSuffix(rel, ".pb"), rel == "blocker", rel == storeName:
 				return nil
 			case filepath.Dir(p) == sdir && entryRe.MatchString(filepath.Base(p)):
 				return nil
@@ -461,7 +466,7 @@ func (rep *Report) sameProcessHistory(g *gen.G, cf *CasesFile) {
 		docs = append(docs, docT{k + 1, d.Metadata.Id, b, f})
 	}
 	initState := gen.Pick(g, []int{0, 3})
-	sdir := filepath.Join(base, "store")
+	sdir := filepath.Join(base, gen.Pick(g, []string{"store", "sboms [prod]", "[archive]", "star*"}))
 	if initState == 3 {
 		_ = os.Mkdir(sdir, 0o755)
 	}
@@ -534,6 +539,9 @@ func (rep *Report) sameProcessHistory(g *gen.G, cf *CasesFile) {
 			if co.Outcome == "ok" {
 				for _, d := range docs {
 					if d.file == c[1] {
+						if prev, had := expect[d.id]; had && c[2] == "true" {
+							rep.Fail(Failure{What: "with no-clobber set, a store over an existing entry reported success (the entry was replaced)", Detail: fmt.Sprintf("entry held document %d, stored document %d, store directory %q", prev, d.tok, filepath.Base(sdir)), Input: map[string]any{"history": desc}})
+						}
 						expect[d.id] = d.tok
 					}
 				}
